@@ -8,6 +8,7 @@ import r_guard
 import r_lock
 import r_forms
 import project
+import r_depend
 import witness
 
 
@@ -34,7 +35,7 @@ def c05(facts, tier):
                  "BGV correction factor.")
     files = None if tier == "thorough" else {"src/evaluator.rs", "src/context.rs", "src/app/lwe.rs"}
     n_loops, n_walk = r_loop.run(facts, rep, scope_files=files)
-    rep.floor("R-LOOP", "while/loop statements analysed", n_loops, 60 if files else 600)
+    rep.floor("R-LOOP", "while/loop statements analysed", n_loops, 10 if files else 70)
     rep.floor("R-LOOP(adv)", "level-walking loops (condition on parms_id of a written object)", n_walk, 3)
     # refusals (pre-return mode)
     fam = r_forms.families(facts)
@@ -197,7 +198,21 @@ def c03(facts, tier):
     return rep
 
 
+def c08(facts, tier):
+    rep = Report("C08", tier, facts,
+                 "R-DEPEND over every public primitive of util::basic, util::uintsmallmod and util::number_theory: "
+                 "(A) each non-constant output depends on the contents of every value operand at every normal return "
+                 "(forward data+control dependency analysis with strong kills), (C) no out-parameter is read before "
+                 "it is written on some path.",
+                 "exactness of any primitive (Barrett estimates, carries, quotient digits): that is a solver / "
+                 "enumeration question and belongs to a different technique family.")
+    n = r_depend.run(facts, rep)
+    rep.floor("R-DEPEND(A)", "public primitives analysed", n, 105)
+    return rep
+
+
 CHECKS = {
+    "C08": c08,
     "C03": c03,
     "C17": c17,
     "C06": c06,
